@@ -311,7 +311,7 @@ def gen_turn_case(rng):
         turns.append({"agent": rng.choice(["A", "B"]), "text": txt + f" t{t}", "pc_step": step if jump is None else 0.0, "pc_jump": jump, "plan": plan, "budgets": ov})
         if same:
             turns[-1]["agent"], turns[-1]["text"] = turns[-2]["agent"], turns[-2]["text"]
-    return {"world": world, "cfg": cfg, "turns": turns}
+    return {"world": world, "cfg": cfg, "turns": turns, "reuse_ctx": rng.random() < 0.5}
 
 
 def check_turn_case(case, sess: Session):
@@ -331,6 +331,7 @@ def check_turn_case(case, sess: Session):
         return
     with env:
         ngraphs = len(case["world"]["graphs"])
+        ctx_pool = {}
         for ti, t in enumerate(case["turns"]):
             if t.get("budgets"):
                 for k_, v_ in t["budgets"].items():
@@ -389,7 +390,10 @@ def check_turn_case(case, sess: Session):
                 return r_
 
             with patched(core, "_should_yield", sy), patched(orch, "t1_propagate", t1w), patched(orch, "t2_semantic", t2w):
-                r = env.run(t["agent"], t["text"], ti + 1, plan=planner, vclock=vc_turn)
+                reuse = case.get("reuse_ctx")
+                r = env.run(t["agent"], t["text"], ti + 1, plan=planner, vclock=vc_turn, ctx_obj=(ctx_pool.get(t["agent"]) if reuse else None))
+                if reuse:
+                    ctx_pool[t["agent"]] = r["ctx"]  # the caller keeps one ctx per agent (it carries the slice counter)
             tcase = {"cfg": case["cfg"], "turn": ti, "turns": case["turns"][:ti + 1], "world": case["world"]}
             sess.evaluations += 1
             sess.count("scheduled_turns")
